@@ -49,6 +49,24 @@ Theorem minCut_is_model : forall (kf : zone -> N) a b ka kb,
 Proof. exact gen_minCut. Qed.
 Print Assumptions minCut_is_model.
 
+(* middleware.ResponseMeta.BoundCutFor - the request tree's sink every noteCut / cache hit / fold goes through -
+   translated from the source on every run, is the model's [bound_cut] (ignore an unbounded deadline; replace
+   when unset or strictly earlier; the identity travels with the winning deadline) *)
+Theorem bound_cut_for_is_model : forall (kf : zone -> N) m mc d kd,
+  nz (cut_time mc) -> nz (cut_time d) -> meta_rep kf m mc ->
+  (forall t z, d = Some (t, z) -> kd = kf z) ->
+  meta_rep kf (go_ResponseMeta_BoundCutFor m (ot (cut_time d)) kd) (bound_cut mc d).
+Proof. exact gen_bound_cut_for. Qed.
+Print Assumptions bound_cut_for_is_model.
+
+(* ... and the fold-back of a forked sub-query's cut as the code writes it (child.Cut() handed to
+   parent.BoundCutFor: subQueryLineage.inherit, the DNAME leg in Resolver.answer) is the cut part of the model's AFold *)
+Theorem fold_back_is_model : forall (kf : zone -> N) p c cp cc,
+  nz (cut_time cp) -> nz (cut_time cc) -> meta_rep kf p cp -> meta_rep kf c cc ->
+  meta_rep kf (go_ResponseMeta_BoundCutFor p (fst (go_ResponseMeta_Cut c)) (snd (go_ResponseMeta_Cut c))) (bound_cut cp cc).
+Proof. exact gen_fold_back. Qed.
+Print Assumptions fold_back_is_model.
+
 (* cache.CacheEntry.remaining (the one place that decides how long a stored answer is served), translated
    from the source on every run, is the model's: TTL minus age, cut short by the inherited cut *)
 Theorem entry_remaining_is_model : forall e now, go_CacheEntry_remaining e now = ae_remaining (ae_of e) now.
@@ -222,6 +240,23 @@ Theorem admission_inherits_path_lineage : forall fx acts st i rs tree key ttl no
   end.
 Proof. exact store_covers_path. Qed.
 Print Assumptions admission_inherits_path_lineage.
+
+(* ... and the lineage of an alias's TARGET LEG: the leg (DNAME leg of the resolver, CNAME chase of the cache layer,
+   any forked sub-query) resolves under its own tree c; once its records or its denial are part of what tree p
+   assembles and its cut has been folded into p, what p admits carries both legs' lineages and ends within both
+   legs' cuts.  With [learned_through_dies_with_lease] (which ranges over all histories, folds included): a
+   composed answer - positive or negative - dies with the lease of EVERY delegation either leg went through.
+   (Seeded change C08-9 drops the fold for negative target legs: [ex_dname_negative_leg] shows what then happens.) *)
+Theorem composed_answer_inherits_target_leg : forall fx st p c key ttl now,
+  match st_ans (step fx (AStore p key ttl now) (step fx (AFold p c) st)) with
+  | e :: _ =>
+      incl (mt_lin (st_meta st c)) (ae_lin e) /\ incl (mt_lin (st_meta st p)) (ae_lin e) /\
+      (forall t, cut_time (mt_cut (st_meta st c)) = Some t -> ae_end e <= t) /\
+      (forall t, cut_time (mt_cut (st_meta st p)) = Some t -> ae_end e <= t)
+  | [] => False
+  end.
+Proof. exact composed_answer_lemma. Qed.
+Print Assumptions composed_answer_inherits_target_leg.
 
 (* an entry is served exactly until min(stored + ttl, cut); the floor never beats the cut *)
 Theorem entry_served_until_end : forall e now, ae_served e now = true <-> now < ae_end e.
